@@ -102,6 +102,7 @@ class Outcome:
     why: str = ""
     consumed: int = 0  # bytes up to the end of the last complete frame
     closed: bool = False  # a Close frame was delivered (later frames are DON'T-CARE)
+    undecided: bool = False  # the stream left the decided domain here (e.g. deflate BFINAL): only the prefix is compared
 
 
 def _err(out: Outcome, codes, why: str, optional: bool = False) -> Outcome:
@@ -154,10 +155,15 @@ def decode(stream: bytes, cfg: Config) -> Outcome:
                 return _err(out, {1002}, "control frame too long", opt)
             if rsv1:
                 return _err(out, {1002}, "rsv1 on control frame", opt)
-        elif rsv1 and (opcode == OP_CONT or frag_opcode is not None):
-            return _err(out, {1002}, "rsv1 on a non-first fragment", opt)
+        rsv1_err = (not control) and rsv1 and (opcode == OP_CONT or frag_opcode is not None)
+        if rsv1_err and length is None:
+            return _err(out, {1002, 1009} if mx else {1002}, "rsv1 on a non-first fragment", opt)
         if length is None:
             break
+        if rsv1_err:
+            # several header-time violations may apply to one frame; their order is not specified
+            over = mx and (frag_len + length >= mx or length >= mx)
+            return _err(out, {1002, 1009} if over else {1002}, "rsv1 on a non-first fragment", opt)
         if cfg.strict_minimal and ((l7 == 126 and length < 126) or (l7 == 127 and length < 65536)):
             return _err(out, {1002}, f"non-minimal length encoding ({l7} for {length})", opt)
         if l7 == 127 and length >> 63:
@@ -239,6 +245,7 @@ def decode(stream: bytes, cfg: Config) -> Outcome:
                 return _err(out, set(), f"corrupt deflate data: {e}")
             if inflater.eof:
                 # BFINAL block inside a message: outside the generated domain
+                out.undecided = True
                 return _err(out, set(), "deflate stream ended (BFINAL)", True)
         if mtype == OP_TEXT:
             if cfg.decode_text:
